@@ -98,11 +98,102 @@ def rule_r1(ctx):
               "erase does not mark the box as erased", how="self.value = None", nontrivial=False)
 
 
+class _Specialised:
+    """A method as analysed: itself, or - when it only delegates with `yield from self.<walk>(<flag>=<constant>)` - the walk it
+    delegates to with the flag folded in."""
+
+    def __init__(self, f, node):
+        self.f, self.node = f, node if node is not None else f.node
+        self.local, self.key, self.module, self.params = f.local, f.key, f.module, f.params
+
+    def __getattr__(self, a):
+        return getattr(self.f, a)
+
+
+def _delegated_walk(dl, f):
+    """The body of the generator a pure delegation `yield from self.<m>(flag)` runs, specialised for the constant flag."""
+    from ..index import set_parents
+    from ..inline import clone
+
+    body = [st for st in f.node.body if not (isinstance(st, ast.Expr) and isinstance(st.value, ast.Constant))]
+    if not (len(body) == 1 and isinstance(body[0], ast.Expr) and isinstance(body[0].value, ast.YieldFrom)):
+        return None
+    c = body[0].value.value
+    if not (isinstance(c, ast.Call) and isinstance(c.func, ast.Attribute) and norm(c.func.value) == f.params[0] and c.func.attr in dl.methods):
+        return None
+    g = dl.methods[c.func.attr]
+    consts = {}
+    for i, a in enumerate(c.args):
+        if isinstance(a, ast.Constant) and i + 1 < len(g.params):
+            consts[g.params[i + 1]] = a.value
+    for k in c.keywords:
+        if k.arg and isinstance(k.value, ast.Constant):
+            consts[k.arg] = k.value.value
+    if len(consts) != len(g.params) - 1:
+        return None
+    node = clone(g.node)
+
+    class Fold(ast.NodeTransformer):
+        def visit_Name(self, n):
+            if isinstance(n.ctx, ast.Load) and n.id in consts:
+                return ast.copy_location(ast.Constant(value=consts[n.id]), n)
+            return n
+
+        def visit_IfExp(self, n):
+            n = self.generic_visit(n)
+            if isinstance(n.test, ast.Constant):
+                return n.body if n.test.value else n.orelse
+            return n
+
+        def visit_BoolOp(self, n):
+            n = self.generic_visit(n)
+            vals = []
+            for v in n.values:
+                if isinstance(v, ast.Constant) and isinstance(v.value, bool):
+                    if isinstance(n.op, ast.And) and not v.value:
+                        return ast.copy_location(ast.Constant(value=False), n)
+                    if isinstance(n.op, ast.Or) and v.value:
+                        return ast.copy_location(ast.Constant(value=True), n)
+                    continue
+                vals.append(v)
+            if not vals:
+                return ast.copy_location(ast.Constant(value=isinstance(n.op, ast.And)), n)
+            return vals[0] if len(vals) == 1 else ast.copy_location(ast.BoolOp(op=n.op, values=vals), n)
+
+        def visit_UnaryOp(self, n):
+            n = self.generic_visit(n)
+            if isinstance(n.op, ast.Not) and isinstance(n.operand, ast.Constant) and isinstance(n.operand.value, bool):
+                return ast.copy_location(ast.Constant(value=not n.operand.value), n)
+            return n
+
+        def visit_If(self, n):
+            n = self.generic_visit(n)
+            if isinstance(n.test, ast.Constant):
+                keep = n.body if n.test.value else n.orelse
+                return keep or [ast.copy_location(ast.Pass(), n)]
+            return n
+
+    node = Fold().visit(node)
+    ast.fix_missing_locations(node)
+    set_parents(node)
+    return node
+
+
+def _value_locals(fn_node, cur: str) -> set[str]:
+    """Locals bound once to `<cursor>.value`."""
+    binds: dict[str, list] = {}
+    for a in own_nodes(fn_node):
+        if isinstance(a, ast.Assign) and len(a.targets) == 1 and isinstance(a.targets[0], ast.Name):
+            binds.setdefault(a.targets[0].id, []).append(norm(a.value))
+    return {k for k, v in binds.items() if v == [f"{cur}.value"]}
+
+
 def rule_r2(ctx):
     dl = ctx.repo.cls(f"{LL}:DoublyLinkedSet")
     for name, step in (("__iter__", "next"), ("__reversed__", "prev")):
-        f = dl.methods.get(name)
-        ctx.require(f is not None, f"DoublyLinkedSet.{name} not found")
+        f0 = dl.methods.get(name)
+        ctx.require(f0 is not None, f"DoublyLinkedSet.{name} not found")
+        f = _Specialised(f0, _delegated_walk(dl, f0))
         ys = [n for n in own_nodes(f.node) if isinstance(n, (ast.Yield, ast.YieldFrom))]
         ctx.require(bool(ys), f"{name}: no yield")
         # the cursor is the variable the loop compares with the root sentinel
@@ -120,14 +211,14 @@ def rule_r2(ctx):
             while p is not None and p is not f.node:
                 if isinstance(p, ast.If) and child in p.body and cur is not None:
                     t = norm(p.test)
-                    if t in (f"not {cur}.erased", f"{cur}.value is not None"):
+                    if t in (f"not {cur}.erased", f"{cur}.value is not None") or any(t == f"{v} is not None" for v in _value_locals(f.node, cur)):
                         guarded = True
                 child = p
                 p = getattr(p, "_parent", None)
             ctx.check("R2", f"{name}: yield guarded by the erased test", guarded, f, y,
                       "a box is yielded without testing that it has not been erased: removed nodes can be yielded",
                       how="control dependence of the yield on `not <cursor>.erased`", construct="yield not guarded by the erased test")
-            ok = isinstance(y, ast.Yield) and cur is not None and norm(y.value) == f"{cur}.value"
+            ok = isinstance(y, ast.Yield) and cur is not None and (norm(y.value) == f"{cur}.value" or norm(y.value) in _value_locals(f.node, cur))
             ctx.check("R2", f"{name}: yields the box's own value", ok, f, y, "yield does not return <cursor>.value", nontrivial=False,
                       construct="yield is not the cursor's value")
         ok = cur is not None
